@@ -31,7 +31,7 @@ with constant propagation of booleans through closure captures): the sink is
 discharged when under every variant it is either unreachable or clean.
 """
 from collections import defaultdict
-from .core import callee_of, op_const, const_value, strip_refs, show_expr
+from .core import callee_of, op_const, const_value, strip_refs, show_expr, kind_test, decide_kind_test, VALUE_ADT
 
 RULEISH = lambda t: t == "RULE" or t.startswith("RULE#")
 
@@ -514,6 +514,10 @@ def switch_places(body, roles):
             x = strip_refs(e[1])
             if x[0] == "call" and x[1] and x[1]["path"] == INDEX_PATH:
                 out[repr(x)] = (x, e[2])
+        else:
+            kt = kind_test(e)       # `args[0].is_object()` switches on the kind of args[0] as a `match` does
+            if kt is not None and kt[0][0] == "call" and kt[0][1] and kt[0][1]["path"] == INDEX_PATH:
+                out.setdefault(repr(kt[0]), (kt[0], VALUE_ADT))
     return list(out.values())
 
 
@@ -605,6 +609,8 @@ def _specialise(b, assume, aval, within):
                     for val, bb in t["arms"]:
                         if val == dv:
                             tgt = bb
+            elif t.get("dty") == "bool" and decide_kind_test(t, e, assume) is not None:
+                tgt = decide_kind_test(t, e, assume)
             elif t.get("dty") == "bool":
                 v = aval(e, "bool")
                 if v is not None:
